@@ -448,6 +448,10 @@ def extra_samples(kind, base):
             fam = kind.family
             out.append(("synth-id3-middle-odd+" + name0, iff_move_id3(d0, fam, simple_id3(pad=32), odd=True)))
             out.append(("synth-id3-middle-even+" + name0, iff_move_id3(d0, fam, simple_id3(pad=33), odd=False)))
+            # frames mutagen cannot interpret (unknown ids, encrypted) inside the ID3 chunk
+            out.append(("synth-unknown-frames+" + name0, iff_move_id3(d0, fam, id3_unknown_frames(b""), odd=False)))
+        elif kind.name == "DSDIFF":
+            out.append(("synth-unknown-frames+" + name0, iff_move_id3(d0, kind.family, id3_unknown_frames(b""), odd=False)))
         elif kind.style == "ape" and kind.name in ("Musepack", "WavPack", "APEv2", "MonkeysAudio"):
             body = ape_strip(d0)
             items = [(b"Title", b"Synth"), (b"Artist", b"Someone"), (b"File", b"http://example.org/a.flac", 2),
